@@ -102,14 +102,28 @@ def run_e2e(report, n_fonts, rng, formats):
             png = png_for(k, max(1, int(32 * aspect)), 32) if bitmap else None
             srcs.append((build.filename_for(s, rng.choice([0, 1])), text, s, png))
             arts.append((text, col, png))
-        case = dict(kind="e2e", format=fmt, config={k: str(v) for k, v in over.items()}, sequences=[["%04x" % c for c in s] for s in seqs])
+        # some vector fonts go through the real command line: proportional advances asked for by flag (width 0, a falsy
+        # value), and a build next to another configuration whose sources carry the same file names with other artwork
+        via, extra = None, {}
+        if not bitmap and i < 8 and "transform" not in over:
+            if i % 2 == 0:
+                via = "flag"
+                over.update(width=0, keep_glyph_names=False)
+            else:
+                via = "file"
+                others = [(s_[0], artwork(k + 5, len(seqs) + 7, vb_w * 2, vb_h)[0], s_[2]) for k, s_ in enumerate(srcs)]
+                extra = dict(companion=(dict(over), others))
+            if fmt.startswith("cff"):
+                over["output_file"] = "Font.otf"
+        case = dict(kind="e2e", format=fmt, config={k: str(v) for k, v in over.items()}, sequences=[["%04x" % c for c in s] for s in seqs], built_by=via or "in process")
         try:
-            font, cfg, picos, data = build.build_inprocess(over, srcs)
+            font, cfg, picos, data = build.build_cli(over, [s_[:3] for s_ in srcs], via, **extra) if via else build.build_inprocess(over, srcs)
         except Exception as ex:
             case["error"] = f"{type(ex).__name__}: {ex}"
             report_failure(report, f"build_{i}", case)
             return
         report.hist("e2e.format", fmt)
+        report.hist("e2e.built_by", ("command line, options by " + via + "".join(", " + k for k in extra)) if via else "in process")
         report.hist("e2e.sequences_per_font", len(seqs))
         order = font.getGlyphOrder()
         cmap = font.getBestCmap()
